@@ -150,6 +150,8 @@ type obs struct {
 	}
 	cdef map[int]kv
 	fail string
+	// the export of the freshly initialised chain equals the export it was initialised from
+	reexportSame bool
 }
 
 func byteList(s string) string { return emit.Bytes([]byte(s)) }
@@ -217,8 +219,8 @@ func (o *obs) coq() string {
 		}
 		after = "(Some " + emit.Tuple(emit.List(af), n.store(o.unknownA)) + ")"
 	}
-	return fmt.Sprintf("{| go_module := %d; go_prefixes := %s; go_before := %s; go_unknown_before := %s; go_img := %s; go_cdef := %s; go_after := %s |}",
-		o.mod, emit.List(pf), emit.List(bf), n.store(o.unknownBefore), emit.List(imgs), emit.List(cds), after)
+	return fmt.Sprintf("{| go_module := %d; go_prefixes := %s; go_before := %s; go_unknown_before := %s; go_img := %s; go_cdef := %s; go_after := %s; go_reexport_same := %s |}",
+		o.mod, emit.List(pf), emit.List(bf), n.store(o.unknownBefore), emit.List(imgs), emit.List(cds), after, emit.Bool(o.reexportSame))
 }
 
 // observe exports the custom modules of h, imports them into a fresh application and returns one
@@ -269,6 +271,20 @@ func observe(h *apph.H) ([]*obs, error) {
 	for i, t := range tables {
 		out[i].after, out[i].unknownA = group(t, dump(fresh.App, fctx, t.name))
 	}
+	// export -> import -> export: the second export must be the first one, section by section
+	var again map[string]json.RawMessage
+	var againErr error
+	func() {
+		defer func() {
+			if r := recover(); r != nil {
+				againErr = fmt.Errorf("panic: %v", r)
+			}
+		}()
+		again, againErr = fresh.App.ModuleManager.ExportGenesisForModules(fctx, mods)
+	}()
+	for i, t := range tables {
+		out[i].reexportSame = againErr == nil && bytes.Equal(exported[t.name], again[t.name])
+	}
 	return out, nil
 }
 
@@ -288,13 +304,21 @@ func Run(seed int64, n int, outDir string) error {
 			richness = 0 // corpus: the untouched default genesis
 		} else if k == 1 {
 			richness = 3 // corpus: every prefix populated
+		} else if k == 2 {
+			richness = 4 // corpus: every collection beyond any page limit (bulk, through setters)
 		} else if r.Chance(1, 3) {
 			richness = 3
 		} else if r.Chance(1, 5) {
 			richness = 1
 		}
 		h := apph.New(apph.Options{NumAccounts: 5})
-		log, err := history(h, r, richness)
+		var log []string
+		var err error
+		if richness == 4 {
+			log, err = largeHistory(h, r)
+		} else {
+			log, err = history(h, r, richness)
+		}
 		if err != nil {
 			h.Close()
 			return fmt.Errorf("history %d: %w", k, err)
@@ -328,7 +352,13 @@ func Run(seed int64, n int, outDir string) error {
 					}
 				}
 			}
-			info := map[string]any{"history": k, "richness": richness, "module": t.name, "entries_per_prefix": counts,
+			if o.fail == "" && !o.reexportSame {
+				st.Count(t.name + "/second-export-differs")
+			}
+			if richness == 4 {
+				st.Count(t.name + "/large-state")
+			}
+			info := map[string]any{"reexport_same": o.reexportSame, "history": k, "richness": richness, "module": t.name, "entries_per_prefix": counts,
 				"unexported_nonempty": lostNonEmpty, "prefixes_that_differ_after_import": changed, "ops": log}
 			if o.fail != "" {
 				info["failure"] = o.fail
@@ -347,7 +377,7 @@ func Run(seed int64, n int, outDir string) error {
 			}
 		}
 	}
-	if _, err := cf.Write(outDir, "cases", 40); err != nil {
+	if _, err := cf.Write(outDir, "cases", 8); err != nil {
 		return err
 	}
 	return st.Write(outDir)
